@@ -287,7 +287,7 @@ def gen_history(rng, depth, wf=True):
             recs = CC.gen_datagram(rng, vocab, ref, opts)
             if wf:
                 recs = one_spelling(recs)
-            ops.append(["D", now, recs, []])
+            ops.append(["D", now, recs, []] + CC.gen_wire_opts(rng, recs, allow6=True))
             ref.datagram(now, recs)
     return ops
 
@@ -607,7 +607,7 @@ def run(ctx):
     tier, seed = ctx["tier"], ctx["seed"]
     wide = 4 if ctx.get("widened") else 1
     n_random = C.Budget(tier, 700, 6000).n * wide
-    deadline = t0 + (420 if tier == "thorough" else 60) * (1.8 if wide > 1 else 1)
+    deadline = t0 + (420 if tier == "thorough" else 75) * (1.4 if wide > 1 else 1)
     run_ = CC.Runner(res, "C04", ctx, oracle, valid=well_formed)
     probes = CC.vocab_probes(VOCAB, [TX, TY, TZ, TS])
 
